@@ -86,11 +86,11 @@ func (c *codec) usedBytes() (u [256]bool) {
 
 func junk(h *harness, cs []*codec) {
 	thorough := h.r.Thorough()
-	maxTok, nBytes := 4, 2
-	rawLen := [][]int{{6}, {6}, {6, 10}, {6}}
+	maxTok, nBytes := []int{4, 4, 4, 4}, 2
+	rawLen := [][]int{{7}, {7}, {7, 10}, {7, 10}}
 	if thorough {
-		maxTok, nBytes = 5, 3
-		rawLen = [][]int{{8}, {8}, {8, 11}, {8}}
+		maxTok, nBytes = []int{6, 6, 5, 5}, 3
+		rawLen = [][]int{{8}, {8}, {8, 11}, {8, 12}}
 	}
 	for ci, c := range cs {
 		for k := range c.raws {
@@ -105,7 +105,7 @@ func junk(h *harness, cs []*codec) {
 		go func(ci int, c *codec) {
 			defer wg.Done()
 			var l []string
-			common.Strings(c.menu, maxTok, func(s string) {
+			common.Strings(c.menu, maxTok[ci], func(s string) {
 				if !c.inRaw([]byte(s), len(c.raws)) {
 					l = append(l, s)
 				}
@@ -166,7 +166,7 @@ func junk(h *harness, cs []*codec) {
 		// T: token sequences
 		list := lists[ci]
 		ft := &fam{name: "parse/token-sequences", codec: c.name,
-			space: fmt.Sprintf("every concatenation of <= %d tokens from the %d-token menu %q (distinct strings, not repeating the raw families)", maxTok, len(c.menu), c.menu)}
+			space: fmt.Sprintf("every concatenation of <= %d tokens from the %d-token menu %q (distinct strings, not repeating the raw families)", maxTok[ci], len(c.menu), c.menu)}
 		h.addFam(ft)
 		const chunk = 4096
 		h.shards(ft, (len(list)+chunk-1)/chunk, func(i int, w *worker) {
